@@ -459,7 +459,7 @@ def read_arg_required(
                 name, _ = read_command(src, 0, 0, tolerance=tolerance, mode=mode)
                 args.append(TexCmd(name, position=next_token.position))
             else:
-                args.append('{%s}' % next_token)
+                args.append(BraceGroup(next_token))
             n_required -= 1
             continue
 
